@@ -180,6 +180,8 @@ pub mod verif {
                 let n = FAULT_CALLS.fetch_add(1, std::sync::atomic::Ordering::SeqCst);
 
                 if n == after {
+                    probe("fault_fired", n as u64);
+
                     if panic {
                         panic!("injected fault at {}", name);
                     }
